@@ -323,6 +323,9 @@ func fieldPath(v ssa.Value) string {
 		root = callDesc(x)
 	case *ssa.Alloc:
 		root = "local"
+		if x.Comment != "" && x.Comment != "complit" {
+			root = x.Comment // the source variable (value parameters are spilled to a local of the same name)
+		}
 	case *ssa.Phi:
 		root = "phi"
 	}
